@@ -205,6 +205,18 @@ func intSlices(depth int) []val[[]int] {
 			vs = append(vs, val[[]int]{c, "Sort-of-empty", slice.Sort([]int{})})
 		}
 	}
+	// views of ONE array: the value, its PopLast prefixes (same start, shorter), its Tail (other
+	// start), and a value-equal copy of each - equality is about contents and length, not identity
+	for _, base := range [][]int{{1, 2, 3}, {1, 1, 1}, {2, 1}} {
+		x := append([]int{}, base...)
+		cur := x
+		for len(cur) > 0 {
+			vs = append(vs, val[[]int]{fmt.Sprint(cur), fmt.Sprintf("view-of-shared-array/len%d", len(cur)), cur})
+			vs = append(vs, val[[]int]{fmt.Sprint(cur), fmt.Sprintf("copy-of-view/len%d", len(cur)), append([]int{}, cur...)})
+			cur = slice.PopLast(cur)
+		}
+		vs = append(vs, val[[]int]{fmt.Sprint(x[1:]), "view-of-shared-array/Tail", slice.Tail(x)})
+	}
 	return vs
 }
 
